@@ -192,6 +192,17 @@ CHECKS["C13"] = dict(
     technique="TLA+ table model; complete product enumerated by TLC, every cell validated by TLC",
     design="7/C13")
 
+CHECKS["C15"] = dict(
+    category="model_checking",
+    text="Quote.tla defines the four literal spellings of a string and the property predicate; TLC enumerates every string up to MaxLen "
+         "symbols over 26 characters (all shell specials, blank, tab, newline, multi-byte) with its spellings; the real parser and "
+         "ExecEnv.Expand run on every spelling under every expansion mode in an adversarial environment; QuoteCheck validates "
+         "one field equal to the string in every mode and, in Pattern mode, a pattern that Pattern.tla's matcher accepts for the "
+         "string and rejects for all its perturbations.",
+    note="Trusted: Quote.tla's spelling rules (XCU 2.2), the fixed adversarial environment of the driver, Pattern.tla, TLC.",
+    technique="TLA+-enumerated strings and spellings, end-to-end observations validated by TLC",
+    design="7/C15")
+
 NOT_APPLICABLE = {}
 
 ALL = ["C%02d" % i for i in range(1, 21)]
